@@ -293,6 +293,23 @@ class AtLeast(puan.Proposition):
             )
         )
 
+    def _occurrences(self) -> typing.List[puan.Proposition]:
+
+        """
+            This proposition and all its sub propositions, one entry per occurrence
+            (unlike :meth:`flatten`, nothing is de-duplicated).
+        """
+        return list(
+            itertools.chain(
+                [self],
+                self.atomic_propositions,
+                *map(
+                    operator.methodcaller("_occurrences"),
+                    self.compound_propositions
+                )
+            )
+        )
+
     def _dependencies(self) -> typing.List[typing.Tuple[puan.variable, typing.List[puan.variable]]]:
 
         """
@@ -405,7 +422,9 @@ class AtLeast(puan.Proposition):
                             maz.compose(
                                 len,
                                 set,
-                                functools.partial(map, hash),
+                                # a definition of a variable is its id with its bounds (every
+                                # occurrence counts: flatten() keeps one object per id only)
+                                functools.partial(map, lambda x: (x.id, x.bounds.as_tuple())),
                                 itertools.chain.from_iterable,
                                 maz.fnmap(
                                     functools.partial(
@@ -429,7 +448,7 @@ class AtLeast(puan.Proposition):
                                         )
                                     )
                                 ),
-                                operator.methodcaller("flatten")
+                                operator.methodcaller("_occurrences")
                             ),
                             maz.compose(
                                 len,
@@ -438,7 +457,7 @@ class AtLeast(puan.Proposition):
                                     map, 
                                     operator.attrgetter("id")
                                 ),
-                                operator.methodcaller("flatten")
+                                operator.methodcaller("_occurrences")
                             ),
                         )
                     ),
@@ -453,7 +472,11 @@ class AtLeast(puan.Proposition):
                             operator.eq,   
                         ),
                         maz.fnmap(
-                            maz.compose(len, set, functools.partial(map, hash)),
+                            # a definition of a compound proposition is its id with its
+                            # sign, value, sub proposition ids and bounds
+                            maz.compose(len, set, functools.partial(map, lambda x: (
+                                x.id, x.sign, x.value, tuple(map(operator.attrgetter("id"), x.propositions)), x.bounds.as_tuple()
+                            ))),
                             maz.compose(len, set, functools.partial(map, operator.attrgetter("id")))
                         ),
                         list,
@@ -461,7 +484,7 @@ class AtLeast(puan.Proposition):
                             filter,
                             lambda x: not issubclass(x.__class__, puan.variable),
                         ),
-                        operator.methodcaller("flatten")
+                        operator.methodcaller("_occurrences")
                     ),
 
 
